@@ -111,10 +111,21 @@ def images_expected(doc):
     return out, skipped
 
 
-def eval_images_doc(doc):
+def eval_images_doc(doc, mode="fresh"):
+    """mode 'fresh': loads() into a new object; 'reused': into an object that has already loaded a (current, empty) manifest;
+    'second-consumer': the same parsed document is deserialized by two new objects, the second one is judged."""
     import productmd.images as pi
     im = pi.Images()
-    r = call(im.loads, json.dumps(doc))
+    if mode == "reused":
+        im.loads(json.dumps({"header": {"type": "productmd.images", "version": "1.2"},
+                             "payload": {"compose": dict(COMPOSE), "images": {}}}))
+        r = call(im.loads, json.dumps(doc))
+    elif mode == "second-consumer":
+        parsed = json.loads(json.dumps(doc))
+        call(pi.Images().deserialize, parsed)
+        r = call(im.deserialize, parsed)
+    else:
+        r = call(im.loads, json.dumps(doc))
     if r[0] != "ok":
         return {"load": r[1]}
     cells = B.observe(im)["cells"]
@@ -187,10 +198,18 @@ def rpms_expected(doc):
     return out, unreferenced
 
 
-def eval_rpms_doc(doc):
+def eval_rpms_doc(doc, mode="fresh"):
     import productmd.rpms as pr
     r = pr.Rpms()
-    res = call(r.loads, json.dumps(doc))
+    if mode == "reused":
+        r.loads(json.dumps({"header": {"type": "productmd.rpms", "version": "1.2"}, "payload": {"compose": dict(COMPOSE), "rpms": {}}}))
+        res = call(r.loads, json.dumps(doc))
+    elif mode == "second-consumer":
+        parsed = json.loads(json.dumps(doc))
+        call(pr.Rpms().deserialize, parsed)
+        res = call(r.deserialize, parsed)
+    else:
+        res = call(r.loads, json.dumps(doc))
     if res[0] != "ok":
         return {"load": res[1]}
     w = call(r.dumps)
@@ -221,13 +240,21 @@ def units(tier, seed):
 
 
 def _check_images_doc(layouts, ver, acc):
+    for mode in MODES:
+        _check_images_doc_mode(layouts, ver, acc, mode)
+
+
+MODES = ["fresh", "reused", "second-consumer"]
+
+
+def _check_images_doc_mode(layouts, ver, acc, mode):
     doc = images_doc(layouts, ver)
-    o = eval_images_doc(doc)
+    o = eval_images_doc(doc, mode)
     acc.ev()
     acc.trans()
     acc.trace()
-    acc.state(("img", ver, json.dumps(layouts, sort_keys=True)))
-    case = {"kind": "imgdoc", "layouts": layouts, "version": ver}
+    acc.state(("img", ver, mode, json.dumps(layouts, sort_keys=True)))
+    case = {"kind": "imgdoc", "layouts": layouts, "version": ver, "mode": mode}
     has_src = any(lay["src"] for _, lay in layouts)
     if ver == "1.2":
         if has_src:
@@ -237,7 +264,7 @@ def _check_images_doc(layouts, ver, acc):
                 acc.outcome("images-1.2-src:rejected")
         return
     if o["load"] != "ok":
-        acc.violation("images-doc-rejected", case, o, "images %s document %s rejected: %s" % (ver, layouts, o["load"]))
+        acc.violation("images-doc-rejected", case, o, "images %s document %s (%s) rejected: %s" % (ver, layouts, mode, o["load"]))
         return
     want, skipped = images_expected(doc)
     if skipped:
@@ -246,7 +273,7 @@ def _check_images_doc(layouts, ver, acc):
                                                                           if lay["x86_64"] is None and lay["i386"] is None]}
     d = diff(got, want)
     if d:
-        acc.violation("images-doc-refiling", case, o, "images %s document %s: %s" % (ver, layouts, "; ".join(d)[:600]))
+        acc.violation("images-doc-refiling", case, o, "images %s document %s (%s): %s" % (ver, layouts, mode, "; ".join(d)[:600]))
     bad_keys = [a for v in o["cells"] for a in o["cells"][v] if a in SRC_KEYS]
     if bad_keys or (o["dumped_arch_keys"] is not None and any(a in SRC_KEYS for a in o["dumped_arch_keys"])):
         acc.violation("images-doc-srckey", case, o, "source architecture key survives load/dump of %s" % (layouts,))
@@ -258,20 +285,25 @@ def _check_images_doc(layouts, ver, acc):
 
 
 def _check_rpms_doc(layouts, acc):
+    for mode in MODES:
+        _check_rpms_doc_mode(layouts, acc, mode)
+
+
+def _check_rpms_doc_mode(layouts, acc, mode):
     doc = rpms_doc(layouts)
-    o = eval_rpms_doc(doc)
+    o = eval_rpms_doc(doc, mode)
     acc.ev()
     acc.trans()
     acc.trace()
-    acc.state(("rpm", json.dumps(layouts, sort_keys=True)))
-    case = {"kind": "rpmdoc", "layouts": layouts}
+    acc.state(("rpm", mode, json.dumps(layouts, sort_keys=True)))
+    case = {"kind": "rpmdoc", "layouts": layouts, "mode": mode}
     if o["load"] != "ok":
-        acc.violation("rpms-doc-rejected", case, o, "rpms 0.3 document %s rejected: %s" % (layouts, o["load"]))
+        acc.violation("rpms-doc-rejected", case, o, "rpms 0.3 document %s (%s) rejected: %s" % (layouts, mode, o["load"]))
         return
     want, unref = rpms_expected(doc)
     d = diff(o["rpms"], want)
     if d:
-        acc.violation("rpms-doc-refiling", case, o, "rpms 0.3 document %s: %s" % (layouts, "; ".join(d)[:600]))
+        acc.violation("rpms-doc-refiling", case, o, "rpms 0.3 document %s (%s): %s" % (layouts, mode, "; ".join(d)[:600]))
     if any(a in SRC_KEYS for v in o["rpms"] for a in o["rpms"][v]) or \
             (o["dumped_arch_keys"] is not None and any(a in SRC_KEYS for a in o["dumped_arch_keys"])):
         acc.violation("rpms-doc-srckey", case, o, "source architecture key survives load/dump of %s" % (layouts,))
@@ -351,8 +383,8 @@ def replay(case):
     if k == "rpmadd":
         return eval_rpms_add(case["pre"], case["arch"], case["srpm"])
     if k == "imgdoc":
-        return eval_images_doc(images_doc(case["layouts"], case["version"]))
-    return eval_rpms_doc(rpms_doc(case["layouts"]))
+        return eval_images_doc(images_doc(case["layouts"], case["version"]), case.get("mode", "fresh"))
+    return eval_rpms_doc(rpms_doc(case["layouts"]), case.get("mode", "fresh"))
 
 
 KNOWN = {}
@@ -365,7 +397,7 @@ def describe(tier):
                 "{absent, empty, 1 image} x src {absent, 1, 2 images} (26 layouts, 26 + 26^2 documents per version); (iii) every "
                 "rpms 0.3 document with 1..2 variants, binary arches within {x86_64, i386} each listing any subset of source "
                 "packages {p, q} (one binary + one debug package each), src table absent or any subset (120 + 120^2 documents). "
-                "Oracle: re-filing model (source image under each binary arch of its variant; source RPM under each binary arch "
+                "Every document is loaded three ways: by a new object, by an object that has already loaded a current manifest, and as the second of two consumers of the same parsed document.  Oracle: re-filing model (source image under each binary arch of its variant; source RPM under each binary arch "
                 "listing packages built from it, category source), no src/nosrc key in mapping or dump.  Non-trivial: a refused "
                 "add, or a document that has a src table." % (ARCH_CLASSES,),
         "bound": "<= 2 variants, 2 binary arches, 2 source images / 2 source packages; complete enumeration in both tiers",
